@@ -54,7 +54,7 @@ manifest = {
         "kind_free_text": "Coq 8.16.1 theorems about executable Gallina models (coq/), models tied to /repo on every run by the go2coq translator (tools/go2coq) and by a Go differential harness whose observations are evaluated against model and specification inside Coq (harness/, cases_*.v)",
     }],
     "checks": checks,
-    "notes": "See DESIGN.md. ./check Cxx rebuilds from /repo's working tree on every run. known_findings.json lists genuine defects (KNOWN-FINDING lines).",
+    "notes": "See DESIGN.md. ./check Cxx rebuilds from /repo's working tree on every run. known_findings.json + findings/Cxx.json list genuine defects (status known: KNOWN-FINDING lines; status fixed: repaired by the named fix: commit, suppresses nothing); KNOWN_FINDINGS.txt is the generated digest. Seeded-change tests: seeded/, DESIGN.md §11.2.",
     "not_applicable": not_app,
 }
 json.dump(manifest, open(os.path.join(ROOT, "MANIFEST.json"), "w"), indent=1)
